@@ -7,7 +7,7 @@ TECH = 'Coq proof about an executable Gallina model (invariant + refinement to a
 
 CLAIMED = {
  'C02': dict(
-   text='Theorem over all operation histories, all capacities with cap+1 < 2^32 (including 0) and an ARBITRARY hash function (every collision pattern): the concrete hash-set model (header words, record array, bucket chains, intrusive free list) refines a capacity-bounded sorted set, iteration yields exactly the members once, remove removes only that value; chain/free-list invariant proved inductive; the specification itself is proved to be a finite set (membership changes for the touched value only, size moves by exactly one) on every sorted list and on the members of every invariant state. Model tied to the crate on every run (weak-hash value types forcing collisions, exhaustive small scope, re-open modes).',
+   text='Theorem over all operation histories, all capacities with cap+1 < 2^32 (including 0) and an ARBITRARY hash function (every collision pattern): the concrete hash-set model (header words, record array, bucket chains, intrusive free list) refines a capacity-bounded sorted set, iteration yields exactly the members once, remove removes only that value; chain/free-list invariant proved inductive; the specification itself is proved to be a finite set (membership changes for the touched value only, size moves by exactly one) on every sorted list and on the members of every invariant state; contains after insert and iteration after insert/remove (old members plus/minus exactly that value, each once) on the concrete model. Model tied to the crate on every run (weak-hash value types forcing collisions, exhaustive small scope, re-open modes).',
    note=BASE_NOTE + 'Values are modelled as integers with decidable equality; the Hash impl of the value type is the Section variable hash64 (SipHash-1-3 of the real types is modelled in Base/Sip.v and compared byte-for-byte through the buffers).',
    technique=TECH),
  'C03': dict(
